@@ -97,6 +97,10 @@ pub struct FillCase {
     /// address of the integer slice handed to `fill_interleaved`, in i32 units modulo 8
     #[serde(default)]
     pub int_align: u8,
+    /// per fill: value class of that block (255 = `vclass`); 4 = digital silence, 5 = one constant: blocks that a fill
+    /// operation might treat specially
+    #[serde(default)]
+    pub step_class: Vec<u8>,
 }
 
 /// A copy of `data` that starts at an address congruent to `off` (in elements) modulo `modulus` elements of
@@ -115,7 +119,9 @@ fn values(n: usize, bps: usize, vclass: u8, rng: &mut Sm64) -> Vec<i32> {
     let hi = (1i64 << (bps - 1)) - 1;
     (0..n)
         .map(|_| {
-            (match vclass % 4 {
+            (match vclass % 6 {
+                4 => 0,
+                5 => (lo + hi) / 3 + 1,
                 0 => rng.range_i64(lo, hi),
                 1 => {
                     if rng.below(2) == 0 {
@@ -202,7 +208,17 @@ pub fn check_fill(case: &FillCase) -> Outcome {
     let fctx = FrameCtx { rate: Some(44100), bps: Some(bps as u32), channels: Some(ch), max_block: None };
     for (step, len) in case.lens.iter().enumerate() {
         let len = (*len).min(cap);
-        let v = values(len * ch, bps, case.vclass, &mut rng);
+        let cls = match case.step_class.get(step).copied().unwrap_or(255) {
+            255 => case.vclass % 4,
+            c => c,
+        };
+        if cls >= 4 {
+            out.class(if cls == 4 { "fill:silent-block" } else { "fill:constant-block" });
+            if step >= 2 && len > case.lens[step - 1].min(cap) && case.lens[step - 2].min(cap) > case.lens[step - 1].min(cap) {
+                out.class("history:long-short-then-longer-silent/constant");
+            }
+        }
+        let v = values(len * ch, bps, cls, &mut rng);
         any_negative |= v.iter().any(|x| *x < 0);
         if prev_len == cap && len < cap && len > 0 {
             shorter_after_full = true;
@@ -338,7 +354,12 @@ pub fn fill_strategy() -> BoxedStrategy<FillCase> {
                 2 => (1usize..=17).prop_map(move |d| capacity.saturating_sub(d).max(1)),
             ];
             (proptest::collection::vec(len, 2..=6), proptest::collection::vec(prop_oneof![4 => Just(true), 1 => Just(false)], 6..=6), prop_oneof![2 => Just(0u8), 3 => 0u8..32], prop_oneof![2 => Just(0u8), 2 => 0u8..8])
-                .prop_map(move |(lens, use_bytes, byte_align, int_align)| FillCase { channels, bps, nbytes, capacity, lens, use_bytes, seed, vclass, cfg: cfg.clone(), byte_align, int_align })
+                .prop_map(move |(lens, use_bytes, byte_align, int_align)| {
+                    // a third of the histories contain silent / constant blocks
+                    let mut r = Sm64::new(seed ^ 0xC14);
+                    let step_class = (0..lens.len()).map(|_| if seed % 3 == 0 { [255u8, 255, 4, 4, 5][r.below(5) as usize] } else { 255 }).collect();
+                    FillCase { channels, bps, nbytes, capacity, lens, use_bytes, seed, vclass, cfg: cfg.clone(), byte_align, int_align, step_class }
+                })
         })
         .boxed()
 }
